@@ -1,5 +1,7 @@
 import IQE.Props.C05
+import IQE.Props.C05Gen
 open IQE.Props.C05
+open IQE.Props.C05Gen
 #print axioms C05_op_bijection
 #print axioms C05_tables_are_translated
 #print axioms C05_toGen_ofGen
@@ -15,3 +17,8 @@ open IQE.Props.C05
 #print axioms C05_witness_i32_narrowing
 #print axioms C05_witness_nan_and_zero
 #print axioms C05_current_is_intended
+#print axioms C05Gen_definiteInt_is_translated
+#print axioms C05Gen_definite_table_int_sound
+#print axioms C05Gen_definite_table_int_cmp_only
+#print axioms C05Gen_exact_beyond_2p53
+#print axioms C05Gen_definite_table_int_inRange
